@@ -9,7 +9,7 @@ from ..repo import walk_scope
 from ..terms import Atom, Obj, vkey
 from .common import ddict, ds, scan, st, worker
 from .sched import r_no_downgrade
-from .C02 import r1_pairing_after_yield, r2_gpu_cpu_lists, r4_consider_computable, r7_reidle
+from .C02 import r1_pairing_after_yield, r2_gpu_cpu_lists, r4_consider_computable, r7_reidle, r10_one_round_exactly_once
 
 IMPL = "cascade.controller.impl"
 CORE = "cascade.scheduler.core"
@@ -350,6 +350,6 @@ def r7_migration_rows(ctx):
             ctx.ok("C03.R7", loc(fi), "every worker of the migrated host (idle or busy) gets a distance row; host2component updated")
 
 
-from .C04 import r6_fetch_queue  # noqa: E402  (a requested output that is never fetched keeps the controller waiting for ever)
+from .C04 import r6_fetch_queue, r7_available_writers  # noqa: E402  (a requested output that is never fetched keeps the controller waiting for ever)
 
-RULES += [r7_migration_rows, r6_fetch_queue]
+RULES += [r7_migration_rows, r6_fetch_queue, r7_available_writers, r10_one_round_exactly_once]  # an unrecorded publication never becomes a transfer source: remote consumers starve
